@@ -5,7 +5,10 @@ import (
 	"go/token"
 	"go/types"
 	"math/big"
+	"sort"
 	"strings"
+
+	gast "github.com/vektah/gqlparser/v2/ast"
 
 	"golang.org/x/tools/go/ssa"
 
@@ -164,4 +167,479 @@ func lossyConv(c *Ctx, prop string) {
 	}
 }
 
-func c02Gen(c *Ctx) {}
+func c02Gen(c *Ctx) {
+	c02ArgErrors(c)
+	c02InputTable(c)
+	c02EnumClosed(c)
+}
+
+// errorFlow classifies what happens to the error result of call in fn:
+//   "propagated": the error value (possibly through graphql.ErrorOnPath / fmt.Errorf wrapping) is returned as the function's error result
+//   "tested":     a branch tests it and the failure edge only reaches returns with a non-nil error
+//   otherwise a description of the problem.
+func (c *Ctx) errorFlow(fn *ssa.Function, call *ssa.Call) string {
+	nres := call.Call.Signature().Results().Len()
+	var errV ssa.Value
+	if nres == 1 {
+		errV = call
+	} else {
+		for _, r := range an.Referrers(call) {
+			if ex, ok := r.(*ssa.Extract); ok && ex.Index == nres-1 {
+				errV = ex
+			}
+		}
+	}
+	if errV == nil {
+		return "the error result is discarded"
+	}
+	ei := fn.Signature.Results().Len() - 1
+	// tested?
+	tested := false
+	for _, e := range an.CondEdges(fn) {
+		if empty, ok := an.EmptinessFact(e.Fact, func(v ssa.Value) bool { return an.SameVar(v, errV) }); ok && !empty {
+			tested = true
+			for b := range an.Reach(e.To, nil) {
+				for _, in := range b.Instrs {
+					r, isRet := in.(*ssa.Return)
+					if !isRet || ei < 0 || ei >= len(r.Results) {
+						continue
+					}
+					if !c.errDerives(r.Results[ei], errV, 0) && !nonNilValue(r.Results[ei]) {
+						return "the failure edge reaches the return at " + c.ipos(r) + " whose error may be nil: the coercion error is swallowed and the resolver runs with a zero value"
+					}
+				}
+			}
+		}
+	}
+	if tested {
+		return "tested"
+	}
+	// propagated directly?
+	for _, r := range an.Returns(fn) {
+		if ei >= 0 && ei < len(r.Results) && c.errDerives(r.Results[ei], errV, 0) && an.CanReach(call, r) {
+			return "propagated"
+		}
+	}
+	// stored into a captured/named error variable that the caller tests (fc.Args, err = ...): look for a test of a load of the same cell
+	for _, r := range an.Referrers(errV) {
+		if st, ok := r.(*ssa.Store); ok && an.IsLocalCell(st.Addr) {
+			for _, e := range an.CondEdges(fn) {
+				if empty, ok := an.EmptinessFact(e.Fact, func(v ssa.Value) bool { a := loadAddr(v); return a != nil && an.RootAlloc(a) == an.RootAlloc(st.Addr) }); ok && !empty {
+					return "tested"
+				}
+			}
+		}
+	}
+	return "the error result is neither tested nor returned"
+}
+
+// errDerives: v is e, or ErrorOnPath(ctx, e), or a wrapping constructor applied to e.
+func (c *Ctx) errDerives(v, e ssa.Value, depth int) bool {
+	if depth > 4 {
+		return false
+	}
+	for _, d := range an.Defs(v) {
+		if an.SameVar(d, e) {
+			continue
+		}
+		call, ok := d.(*ssa.Call)
+		if !ok {
+			return false
+		}
+		n := an.CalleeOf(call).FullName()
+		if n != pkgGraphql+".ErrorOnPath" && n != "fmt.Errorf" {
+			return false
+		}
+		found := false
+		for _, a := range call.Call.Args {
+			if c.errDerives(a, e, depth+1) {
+				found = true
+			}
+			// variadic: error inside the []any backing array
+			for _, d2 := range an.Defs(a) {
+				if sl, ok := d2.(*ssa.Slice); ok {
+					if al, ok := sl.X.(*ssa.Alloc); ok {
+						for _, r := range an.Referrers(al) {
+							if ia, ok := r.(*ssa.IndexAddr); ok {
+								for _, r2 := range an.Referrers(ia) {
+									if st, ok := r2.(*ssa.Store); ok && c.errDerives(an.Strip(st.Val), e, depth+1) {
+										found = true
+									}
+								}
+							}
+						}
+					}
+				}
+			}
+		}
+		if !found {
+			return false
+		}
+	}
+	return true
+}
+
+func c02ArgErrors(c *Ctx) {
+	c.R.Rule("arg-error-blocks-resolver", "in every generated field function the middleware/resolver call is edge-dominated by err == nil of its field-context call; in every field-context, args, unmarshalInput and unmarshal wrapper function, the error result of each fallible generated/runtime callee is tested (failure edge only reaches non-nil error returns) or returned", 500)
+	total := 0
+	for _, g := range c.Gen {
+		for _, fn := range c.genFuncs(g) {
+			top := topFn(fn)
+			name := top.Name()
+			switch {
+			case fn.Parent() == nil && strings.HasPrefix(name, "_") && isFieldFuncSig(fn):
+				var fcCall *ssa.Call
+				for _, call := range an.CallsIn(fn, func(_ ssa.CallInstruction, ci an.CalleeInfo) bool { return ci.Static != nil && strings.HasPrefix(ci.Static.Name(), "fieldContext_") }) {
+					fcCall, _ = call.(*ssa.Call)
+				}
+				if fcCall == nil {
+					continue
+				}
+				total++
+				bad := ""
+				n := 0
+				for _, f2 := range an.WithClosures(fn) {
+					for _, b := range f2.Blocks {
+						for _, in := range b.Instrs {
+							call, ok := in.(ssa.CallInstruction)
+							if !ok {
+								continue
+							}
+							isMw := strings.HasSuffix(an.CalleeOf(call).FullName(), "_fieldMiddleware") || userCallKind(g, call) != ""
+							if !isMw {
+								continue
+							}
+							n++
+							ok2 := false
+							for _, f := range an.Facts(in) {
+								if empty, k := an.EmptinessFact(f, func(v ssa.Value) bool { cc := an.AllExtractOf(v, 1); return cc != nil && cc == ssa.CallInstruction(fcCall) }); k && empty {
+									ok2 = true
+								}
+							}
+							if !ok2 {
+								bad = "the call at " + c.ipos(in) + " is reachable although argument coercion (the field-context function) failed: the resolver runs with missing/zero arguments"
+							}
+						}
+					}
+				}
+				c.R.Check(bad == "", "gen:"+g.Name+"/"+name+"/args-gate", c.ipos(fcCall), sprintf("%d resolver-chain calls behind err == nil", n), bad)
+			case strings.HasPrefix(name, "fieldContext_") || (strings.HasPrefix(name, "field_") && strings.HasSuffix(name, "_args")) || strings.HasPrefix(name, "dir_") || strings.HasPrefix(name, "unmarshal"):
+				if fn.Signature.Results().Len() == 0 || !an.IsErrorType(fn.Signature.Results().At(fn.Signature.Results().Len()-1).Type()) {
+					continue
+				}
+				for _, b := range fn.Blocks {
+					for _, in := range b.Instrs {
+						call, ok := in.(*ssa.Call)
+						if !ok {
+							continue
+						}
+						res := call.Call.Signature().Results()
+						if res.Len() == 0 || !an.IsErrorType(res.At(res.Len()-1).Type()) {
+							continue
+						}
+						total++
+						flow := c.errorFlow(fn, call)
+						c.R.Check(flow == "tested" || flow == "propagated", "gen:"+g.Name+"/"+name+"/err", c.ipos(call), flow, "error of "+an.CalleeOf(call).FullName()+": "+flow)
+					}
+				}
+			}
+		}
+	}
+	c.R.SetFloor(total)
+	if total < 500 {
+		c.R.Fail("arg-error-blocks-resolver examined only %d sites", total)
+	}
+}
+
+func c02InputTable(c *Ctx) {
+	c.R.Rule("input-table", "for every input object of the embedded SDL: the generated unmarshalInput function's field-order table and its `switch k` case set both equal the SDL field list, in SDL order; a default value is stored into the working map only under !present of that same key and exactly for the SDL fields that declare a default; every case stores into the result", 10)
+	total := 0
+	for _, g := range c.Gen {
+		sch := c.schema(g)
+		if sch == nil {
+			continue
+		}
+		var names []string
+		for n := range sch.Types {
+			names = append(names, n)
+		}
+		sort.Strings(names)
+		for _, tn := range names {
+			def := sch.Types[tn]
+			if def.Kind != gast.InputObject || isReservedName(tn) {
+				continue
+			}
+			fn := c.genFunc(g, "unmarshalInput"+tn)
+			if fn == nil {
+				c.R.Note("gen:"+g.Name+"/unmarshalInput"+tn, g.Spec.Dir, "input type is bound to a user model with its own unmarshaler or to a map; no generated unmarshalInput")
+				continue
+			}
+			total++
+			key := "gen:" + g.Name + "/unmarshalInput" + tn
+			var sdl []string
+			defaults := map[string]bool{}
+			for _, f := range def.Fields {
+				sdl = append(sdl, f.Name)
+				if f.DefaultValue != nil {
+					defaults[f.Name] = true
+				}
+			}
+			// the order table: an array of string constants stored at constant indices
+			var table []string
+			for _, b := range fn.Blocks {
+				for _, in := range b.Instrs {
+					al, ok := in.(*ssa.Alloc)
+					if !ok {
+						continue
+					}
+					arr, ok := al.Type().Underlying().(*types.Pointer).Elem().Underlying().(*types.Array)
+					if !ok {
+						continue
+					}
+					if bt, ok := arr.Elem().Underlying().(*types.Basic); !ok || bt.Kind() != types.String {
+						continue
+					}
+					tmp := make([]string, arr.Len())
+					for _, r := range an.Referrers(al) {
+						ia, ok := r.(*ssa.IndexAddr)
+						if !ok {
+							continue
+						}
+						idx, isC := an.ConstInt(ia.Index)
+						if !isC {
+							continue
+						}
+						for _, r2 := range an.Referrers(ia) {
+							if st, ok := r2.(*ssa.Store); ok {
+								if sv, ok := an.ConstString(st.Val); ok && int(idx) < len(tmp) {
+									tmp[idx] = sv
+								}
+							}
+						}
+					}
+					if len(tmp) > 0 || len(sdl) == 0 {
+						table = tmp
+					}
+				}
+			}
+			cases := switchCases(fn, func(v ssa.Value) bool {
+				// the switch subject is the ranged element of the table
+				_, isC := v.(*ssa.Const)
+				return !isC
+			})
+			var caseNames []string
+			for k := range cases {
+				caseNames = append(caseNames, k)
+			}
+			bad := ""
+			if strings.Join(table, ",") != strings.Join(sdl, ",") {
+				bad = "field-order table [" + strings.Join(table, ",") + "] differs from the SDL field list [" + strings.Join(sdl, ",") + "]: fields are coerced in the wrong order or not at all"
+			}
+			want := append([]string{}, sdl...)
+			sort.Strings(want)
+			sort.Strings(caseNames)
+			if bad == "" && strings.Join(caseNames, ",") != strings.Join(want, ",") {
+				bad = "switch cases [" + strings.Join(caseNames, ",") + "] differ from the SDL fields [" + strings.Join(want, ",") + "]: a supplied input field is silently ignored"
+			}
+			// defaults: stores with a constant key into the working copy of the input map (the map filled by the copy loop)
+			var working ssa.Value
+			for _, b := range fn.Blocks {
+				for _, in := range b.Instrs {
+					if mu, ok := in.(*ssa.MapUpdate); ok {
+						if _, isC := an.ConstString(mu.Key); !isC {
+							working = mu.Map
+						}
+					}
+				}
+			}
+			gotDefaults := map[string]bool{}
+			for _, b := range fn.Blocks {
+				for _, in := range b.Instrs {
+					mu, ok := in.(*ssa.MapUpdate)
+					if !ok {
+						continue
+					}
+					k, isC := an.ConstString(mu.Key)
+					if !isC {
+						continue // the copy loop asMap[k] = v
+					}
+					if working != nil && mu.Map != working {
+						continue // a store into a map-backed result, not into the working copy
+					}
+					gotDefaults[k] = true
+					okPresent := false
+					for _, f := range an.Facts(mu) {
+						if f.Op == token.ILLEGAL && f.Neg {
+							if ex, ok := f.X.(*ssa.Extract); ok && ex.Index == 1 {
+								if lk, ok := ex.Tuple.(*ssa.Lookup); ok {
+									if k2, ok := an.ConstString(lk.Index); ok && k2 == k {
+										okPresent = true
+									}
+								}
+							}
+						}
+					}
+					if !okPresent && bad == "" {
+						bad = "the default of field " + k + " is stored without testing that the client omitted exactly that field: an explicit value (or explicit null) is overwritten by the default"
+					}
+				}
+			}
+			for k := range defaults {
+				if !gotDefaults[k] && bad == "" {
+					bad = "SDL default of field " + k + " is never injected"
+				}
+			}
+			for k := range gotDefaults {
+				if !defaults[k] && bad == "" {
+					bad = "a default is injected for field " + k + " which declares none in the SDL"
+				}
+			}
+			// every case stores into the result
+			for k, blk := range cases {
+				region := an.Reach(blk, func(b *ssa.BasicBlock) bool { return b != blk && (isCaseHead(b, cases) || isLoopHeader(b)) })
+				stores := false
+				for b := range region {
+					if b != blk && (isCaseHead(b, cases) || isLoopHeader(b)) {
+						continue
+					}
+					for _, in := range b.Instrs {
+						switch x := in.(type) {
+						case *ssa.Store:
+							if fa, ok := x.Addr.(*ssa.FieldAddr); ok {
+								if _, isAl := an.RootAlloc(fa.X).(*ssa.Alloc); isAl {
+									stores = true
+								}
+							}
+						case *ssa.MapUpdate:
+							stores = true
+						case *ssa.Call:
+							// input field resolver: ec.resolvers.X().Field(ctx, &it, data)
+							for _, a := range x.Call.Args {
+								if _, isAl := a.(*ssa.Alloc); isAl && x.Call.IsInvoke() {
+									stores = true
+								}
+							}
+						}
+					}
+				}
+				if !stores && bad == "" {
+					bad = "case " + k + " coerces the value but never stores it into the result"
+				}
+			}
+			c.R.Check(bad == "", key, c.pos(fn.Pos()), sprintf("%d fields in SDL order, %d defaults under !present", len(sdl), len(defaults)), bad)
+		}
+	}
+	if total < 10 {
+		c.R.Fail("input-table examined only %d input objects", total)
+	}
+}
+
+func c02EnumClosed(c *Ctx) {
+	c.R.Rule("enum-closed", "for every generated enum type (a named string type with generated IsValid and UnmarshalGQL): IsValid's case set equals the type's declared constants and the values of the SDL enum of the same name; UnmarshalGQL returns a non-nil error on the not-a-string edge and on the !IsValid edge", 3)
+	total := 0
+	seen := map[string]bool{}
+	for _, g := range c.Gen {
+		sch := c.schema(g)
+		if sch == nil {
+			continue
+		}
+		// packages that hold generated files of this configuration
+		for file := range g.Mat.Files {
+			dir := file[:strings.LastIndex(file, "/")]
+			tp := c.W.TPkg(modPath(dir))
+			if tp == nil || seen[g.Name+tp.PkgPath] {
+				continue
+			}
+			seen[g.Name+tp.PkgPath] = true
+			sp := c.W.Pkg(tp.PkgPath)
+			if sp == nil {
+				continue
+			}
+			for _, tn := range tp.Types.Scope().Names() {
+				obj, ok := tp.Types.Scope().Lookup(tn).(*types.TypeName)
+				if !ok {
+					continue
+				}
+				bt, ok := obj.Type().Underlying().(*types.Basic)
+				if !ok || bt.Kind() != types.String {
+					continue
+				}
+				isValid := c.W.Func(tp.PkgPath, tn+".IsValid")
+				unm := c.W.Func(tp.PkgPath, "*"+tn+".UnmarshalGQL")
+				if isValid == nil || unm == nil {
+					continue
+				}
+				if _, gen := g.Mat.Files[c.W.PosFile(isValid.Pos())]; !gen {
+					continue // user-written enum
+				}
+				total++
+				key := "gen:" + g.Name + "/enum:" + tn
+				// declared constants of the type
+				consts := map[string]bool{}
+				for _, n2 := range tp.Types.Scope().Names() {
+					if cn, ok := tp.Types.Scope().Lookup(n2).(*types.Const); ok && types.Identical(cn.Type(), obj.Type()) {
+						consts[constant.StringVal(cn.Val())] = true
+					}
+				}
+				cases := switchCases(isValid, func(v ssa.Value) bool { _, isP := v.(*ssa.Parameter); return isP })
+				var cs, ks, sdl []string
+				for k := range cases {
+					cs = append(cs, k)
+				}
+				for k := range consts {
+					ks = append(ks, k)
+				}
+				sort.Strings(cs)
+				sort.Strings(ks)
+				bad := ""
+				if strings.Join(cs, ",") != strings.Join(ks, ",") {
+					bad = "IsValid accepts [" + strings.Join(cs, ",") + "] but the type declares [" + strings.Join(ks, ",") + "]"
+				}
+				if def := sch.Types[tn]; def != nil && def.Kind == gast.Enum {
+					for _, v := range def.EnumValues {
+						sdl = append(sdl, v.Name)
+					}
+					sort.Strings(sdl)
+					if bad == "" && strings.Join(sdl, ",") != strings.Join(cs, ",") {
+						bad = "IsValid accepts [" + strings.Join(cs, ",") + "] but the SDL enum " + tn + " has [" + strings.Join(sdl, ",") + "]: an undeclared value is accepted or a declared one rejected"
+					}
+				}
+				// UnmarshalGQL edges
+				okStr, okValid := false, false
+				for _, e := range an.CondEdges(unm) {
+					if e.Fact.Op != token.ILLEGAL || !e.Fact.Neg {
+						continue
+					}
+					isOk := false
+					if ex, ok := e.Fact.X.(*ssa.Extract); ok && ex.Index == 1 {
+						if _, ok := ex.Tuple.(*ssa.TypeAssert); ok {
+							isOk = true
+						}
+					}
+					isIV := false
+					if call, ok := e.Fact.X.(*ssa.Call); ok && call.Call.StaticCallee() == isValid {
+						isIV = true
+					}
+					if !isOk && !isIV {
+						continue
+					}
+					if ok2, _ := c.edgeOnlyErrReturns(e.To, 0); ok2 {
+						if isOk {
+							okStr = true
+						}
+						if isIV {
+							okValid = true
+						}
+					}
+				}
+				if bad == "" && !(okStr && okValid) {
+					bad = sprintf("UnmarshalGQL does not reject bad input on every edge (non-string rejected: %v, invalid value rejected: %v)", okStr, okValid)
+				}
+				c.R.Check(bad == "", key, c.pos(isValid.Pos()), sprintf("%d values: IsValid = constants = SDL; UnmarshalGQL closed", len(cs)), bad)
+			}
+		}
+	}
+	if total < 3 {
+		c.R.Fail("enum-closed examined only %d generated enums", total)
+	}
+}
